@@ -220,7 +220,7 @@ class Run:
         self.env = None
         self.compile_error = None
         self.snapshots = []
-        self.c14_findings, self.c19_findings, self.c20_findings = [], [], []
+        self.c14_findings, self.c19_findings, self.c20_findings, self.c18_findings = [], [], [], []
         self.after_done = None
         self.first_reset_canon = None
         self.instance = None
@@ -558,8 +558,43 @@ class Run:
             self.c14_findings.append({"sig": "reset-state-differs-from-initial", "detail": "", "step": None})
         if env.state_simulator.truncation_joker != int(self.scen["cfg"].get("joker", 5)):
             self.c14_findings.append({"sig": "reset-did-not-restore-allowance", "detail": "", "step": None})
-        if not env.observation_space.contains(r[0]) and False:
-            pass
+        if det and self.scen.get("probes", {}).get("reset") is not False:
+            self._second_episode_twin(env)
+
+    def _second_episode_twin(self, env):
+        """C14 / C18: after reset() the environment behaves like a freshly built one - nothing hidden is
+        carried over (middleware counters, cached instances): the same decline-heavy script is played on the
+        reset environment and on a new one built the same way; deterministic instances only"""
+        sc = self.scen
+        twin, err = self._guard(lambda: JobShopLabEnv(config=self.cfg, seed=sc.get("seed", 0),
+                                                      compiler=CapturingCompiler(self.cfg, "warning", repo=DslStrRepository(sc["dsl"], "warning", self.cfg))))
+        _REC.take()
+        if err is not None or twin is None:
+            return
+        if canon.state(twin.state.state) != canon.state(env.state.state):
+            return      # (reported by reset-state-differs-from-initial)
+
+        def snap(e, out, er):
+            if er is not None:
+                return ("raised", err_name(er).split("@")[0])
+            _obs, rew, term, trunc, _info = out
+            return (canon.state(e.state.state), len(e.state.possible_transitions), round(float(rew), 9), bool(term), bool(trunc))
+        for k in range(40):
+            a = 1 if k % 6 == 5 else 0
+            o1, e1 = self._guard(lambda: env.step(a))
+            _REC.take()
+            o2, e2 = self._guard(lambda: twin.step(a))
+            _REC.take()
+            s1, s2 = snap(env, o1, e1), snap(twin, o2, e2)
+            if s1 != s2:
+                what = "truncated" if (s1[0] != "raised" and s2[0] != "raised" and s1[:4] == s2[:4]) else "episode"
+                f = {"sig": f"second-episode-differs-from-a-fresh-one:{what}",
+                     "detail": f"step {k} action {a}: after reset {s1[1:]} fresh {s2[1:]}", "step": None}
+                self.c14_findings.append(f)
+                self.c18_findings.append(f)
+                return
+            if e1 is not None or env.done:
+                return
 
     def probe_c20(self, rnd):
         """C20: purity / repeatability / atomic rejection through the core step API"""
@@ -700,7 +735,7 @@ class Run:
         self.out.append("E")
 
 
-def two_episodes(run, actions, other=None, start=True):
+def two_episodes(run, actions, other=None, start=True, junk=0):
     """C13: the trace of `actions` from reset, then `env.reset()` and the same actions again;
     `other` is a second live environment stepped in between (it must not matter)"""
     import random as _r
@@ -729,6 +764,11 @@ def two_episodes(run, actions, other=None, start=True):
     if start:
         episode()
     trace.append("== reset")
+    if junk:
+        # process-global random state consumed between the two episodes: a plain reset() re-seeds, so it must not matter
+        np.random.random(junk % 5 + 1)
+        for _ in range(junk % 3 + 1):
+            _r.random()
     saved = (run.cmds, run.out, run.records)
     run.cmds, run.out, run.records = [], [], []
     try:
